@@ -1,12 +1,84 @@
 from harness import common, engine_ser
 
 
+def untyped_containers_law(rep: common.Report) -> int:
+    """serialize(v) without a type (fall_back_on_any) on values whose class is a SUBCLASS of a supported container
+    (OrderedDict, defaultdict, Counter, a user Mapping / Sequence / Set): beyond the universe's encoding, so the law is
+    checked on the real code on both sides -- the image is the one of the plain container with the same items, made
+    of JSON data only."""
+    import collections
+    import collections.abc
+    import enum
+    import json
+
+    from apischema import serialize
+
+    class E(enum.Enum):
+        A = "a"
+
+    class MyMap(collections.abc.Mapping):
+        def __init__(self, d):
+            self.d = d
+
+        def __getitem__(self, k):
+            return self.d[k]
+
+        def __iter__(self):
+            return iter(self.d)
+
+        def __len__(self):
+            return len(self.d)
+
+    class MySeq(collections.abc.Sequence):
+        def __init__(self, xs):
+            self.xs = xs
+
+        def __getitem__(self, i):
+            return self.xs[i]
+
+        def __len__(self):
+            return len(self.xs)
+
+    class MyList(list):
+        pass
+
+    class MyDict(dict):
+        pass
+
+    items = {"b": 1, "a": [E.A, {"k": E.A}], "c": None}
+    dd = collections.defaultdict(list, items)
+    cases = [("OrderedDict", collections.OrderedDict(items), dict(items)), ("defaultdict", dd, dict(items)),
+             ("Counter", collections.Counter("aab"), {"a": 2, "b": 1}), ("dict subclass", MyDict(items), dict(items)),
+             ("user Mapping", MyMap(items), dict(items)), ("ChainMap", collections.ChainMap({"x": E.A}, {"y": 2}), dict(collections.ChainMap({"x": E.A}, {"y": 2}).items())),
+             ("list subclass", MyList([E.A, 1]), [E.A, 1]), ("user Sequence", MySeq([E.A, 1]), [E.A, 1]),
+             ("deque", collections.deque([E.A, 1]), [E.A, 1]), ("nested", [collections.OrderedDict(items)], [dict(items)]),
+             ("dict of OrderedDict", {"o": collections.OrderedDict(items)}, {"o": dict(items)})]
+    n = 0
+    for label, value, plain in cases:
+        for kw in ({}, {"fall_back_on_any": True}, {"fall_back_on_any": True, "no_copy": False}):
+            n += 1
+            try:
+                want = serialize(plain, **kw)
+                got = serialize(value, **kw)
+                json.dumps(got)
+            except Exception as exc:
+                rep.violation(f"[escape] untyped containers: serialize(<{label}>, {kw}) raised {type(exc).__name__}: {exc}", {"value": repr(value)})
+                continue
+            if got != want or (isinstance(want, dict) and list(got) != list(want)):
+                rep.violation(f"[image] untyped containers: serialize(<{label}> {value!r}, {kw}) = {got!r} but the plain container with the "
+                              f"same items gives {want!r}", {"value": repr(value), "got": repr(got), "want": repr(want)})
+    return n
+
+
 def main() -> int:
     rep = common.Report("C04", "model_checking")
     rep.assumptions = ["reference semantics = spec/Serialization.tla (docs/de_serialization.md, DESIGN A.5)",
                        "values are the typed images of the conforming data of the deserialization universe",
-                       "exclude_unset / fields-set classes are decided with C15, key ORDER with C16"]
+                       "exclude_unset / fields-set classes are decided with C15, key ORDER with C16",
+                       "subclasses of the supported containers (OrderedDict, Counter, user Mapping / Sequence) are outside the universe's "
+                       "encoding: serialize(v) without a type is compared with the plain container of the same items on the real code"]
     engine_ser.run("C04", rep)
+    rep.set("untyped_container_cases", untyped_containers_law(rep))
     return rep.finish()
 
 
